@@ -1,5 +1,523 @@
 package main
 
-func cmdCheck(id, tier string) int   { return 2 }
-func cmdReplay(f string, v bool) int { return 2 }
-func cmdSelftest(n int) int          { return 2 }
+import (
+	"encoding/json"
+	"fmt"
+	"os"
+	"path/filepath"
+	"regexp"
+	"sort"
+	"strconv"
+	"strings"
+	"sync"
+	"time"
+)
+
+type familyPlan struct {
+	family string
+	quick  int
+	thor   int
+	race   bool
+}
+
+type checkDef struct {
+	id       string
+	level    string
+	families []familyPlan
+	rule     string
+	assume   []string
+}
+
+var commonAssumptions = []string{
+	"fakemysql (statement table of DESIGN.md App.A, GTID auto-position replication, semi-sync AFTER_SYNC with infinite timeout) and fakezk (znode/session semantics of one logical server) are the trusted base; both are biased against alarms",
+	"one global simulated clock (testing/synctest): no per-node clock skew, no whole-process stalls",
+	"external calls (SQL statements, ZooKeeper requests, dials) are the only crash/interleaving points between processes",
+	"real code under test: internal/app, internal/mysql, internal/dcs (zkDCS), go-zookeeper client, database/sql+sqlx; stubs: go-sql-driver wire protocol, MySQL servers, ZooKeeper ensemble, RandomHostProvider",
+}
+
+var checks = map[string]*checkDef{}
+
+func def(id, level, rule string, fams ...familyPlan) {
+	checks[id] = &checkDef{id: id, level: level, families: fams, rule: rule}
+}
+
+func init() {
+	nt := " A run is non-trivial when at least one injected fault (or, for fault-free families, one scenario stimulus) fell inside the window the property cares about and the behaviour under test was actually reached (per-family probe); runs are distinct by the hash of their abstract-state trajectory."
+	def("C01", "exploration", "seeded scenarios of family 'switch': cluster shape/config swarm, GTID history, one switch request of each kind, per-call SQL/ZK faults, node losses."+nt, familyPlan{"switch", 160, 3000, false})
+	def("C02", "exploration", "family 'singlefault': converged semi-sync cluster, exactly one fault (kind x target x instant x duration) or one manual switchover, then heal; ack-linearity monitor + canonical final state."+nt, familyPlan{"singlefault", 160, 3000, false})
+	def("C03", "exploration", "engine B family 'lock' (2-4 real zkDCS clients, acquire/release/idle with connection faults and expiries) + engine A act-under-lock monitors in family 'switch'."+nt, familyPlan{"lock", 120, 2500, false}, familyPlan{"switch", 60, 1200, false})
+	def("C04", "exploration", "family 'membership': scripted membership/health transitions with the manager crashed after, or a single call failing at, the k-th external call of the reacting iteration (k enumerated from a pilot run of the same seed)."+nt, familyPlan{"membership", 140, 2500, false})
+	def("C05", "exploration", "family 'gates': product of configuration switches, maintenance, pending request, master condition, replica states, active-list contents, last-switch age; reference gate predicate at each creation of switch{cause:auto}."+nt, familyPlan{"gates", 160, 3000, false})
+	def("C06", "exploration", "family 'lifecycle': CLI / worker / automatic initiators, long-failing attempts, aborts, attempt limits and timeouts; history check over switch / last_switch / last_rejected_switch."+nt, familyPlan{"lifecycle", 140, 2500, false})
+	def("C07", "fault_enumeration", "family 'crashpoints': pilot run records the K external calls of the managing incarnation during the switchover; then one run per k with the manager killed right after (or before) call k, or cut from ZooKeeper; final-state oracle. Distinct = distinct crash point identity; non-trivial = the crash fired inside the procedure."+nt, familyPlan{"crashpoints", 140, 2500, false})
+	def("C08", "exploration", "family 'lost': one daemon cut from ZooKeeper over a grid of local role x replica conditions x config; reference decision (DESIGN App.D) vs statements per Lost iteration."+nt, familyPlan{"lost", 140, 2500, false})
+	def("C09", "exploration", "family 'maintenance': enter/leave full and light maintenance through the real CLI with restarts, ZK outages, operator SQL, racing requests."+nt, familyPlan{"maintenance", 140, 2500, false})
+	def("C10", "exploration", "family 'repair': one-deviation grid and sampled products of initial per-node states + unregistered decoy servers; safety monitors + bounded convergence."+nt, familyPlan{"repair", 160, 3000, false})
+	def("C11", "exploration", "family 'recovery': switch away from a master in each GTID relation, recovery checker interleaved with manager iterations, resetup."+nt, familyPlan{"recovery", 140, 2500, false})
+	def("C15", "exploration", "engine B family 'dataplane': generated sequences of DCS data operations by 1-3 real zkDCS clients against a reference tree (sequential refinement when fault-free, per-operation admissibility under faults) + ephemeral lifetime."+nt, familyPlan{"dataplane", 160, 3000, false})
+	def("C16", "exploration", "family 'cascade': stream_from maps incl. chains/cycles/self/unregistered, ancestor health over time; monitors on CHANGE SOURCE at cascade servers."+nt, familyPlan{"cascade", 140, 2500, false})
+	def("C17", "exploration", "family 'offline': zone layouts, caps, lag scripts around both thresholds, broken replication, resetup status; per-pass policy constraints."+nt, familyPlan{"offline", 140, 2500, false})
+	def("C18", "exploration", "family 'disk': usage scripts for master and semi-sync replicas through the three zones; hysteresis table vs read_only statements."+nt, familyPlan{"disk", 140, 2500, false})
+	def("C19", "exploration", "family 'optimization': registries, lag scripts, CLI enable/disable interleaved with syncs, switchovers to lagging replicas."+nt, familyPlan{"optimization", 140, 2500, false})
+	def("C20", "exploration", "family 'chaos': long runs with everything at once + tool-only tree contents; process death, goroutine/connection growth in steady runs, race detector build."+nt, familyPlan{"chaos", 60, 1200, false}, familyPlan{"chaos", 12, 200, true})
+}
+
+type knownFinding struct {
+	Property  string `json:"property"`
+	Signature string `json:"signature"`
+	What      string `json:"what"`
+	Status    string `json:"status"` // known | fixed
+	Commit    string `json:"commit,omitempty"`
+}
+
+func loadKnown() []knownFinding {
+	var kf struct {
+		Findings []knownFinding `json:"findings"`
+	}
+	b, err := os.ReadFile(filepath.Join(verifDir, "known_findings.json"))
+	if err != nil {
+		return nil
+	}
+	json.Unmarshal(b, &kf)
+	return kf.Findings
+}
+
+func matchKnown(kfs []knownFinding, sig string) *knownFinding {
+	for i := range kfs {
+		k := &kfs[i]
+		if k.Status != "known" {
+			continue
+		}
+		if k.Signature == sig || (strings.HasSuffix(k.Signature, "*") && strings.HasPrefix(sig, strings.TrimSuffix(k.Signature, "*"))) {
+			return k
+		}
+	}
+	return nil
+}
+
+type job struct {
+	fam   familyPlan
+	index int
+	in    simInput
+}
+
+func workers() int {
+	if v, err := strconv.Atoi(os.Getenv("VERIF_WORKERS")); err == nil && v > 0 {
+		return v
+	}
+	return 12
+}
+
+func runJobs(bin map[bool]string, jobs []job, timeout time.Duration, deadline time.Time) []*outcome {
+	outs := make([]*outcome, len(jobs))
+	var wg sync.WaitGroup
+	ch := make(chan int)
+	for w := 0; w < workers(); w++ {
+		wg.Add(1)
+		go func() {
+			defer wg.Done()
+			for i := range ch {
+				if time.Now().After(deadline) {
+					continue
+				}
+				outs[i] = runOne(bin[jobs[i].fam.race], jobs[i].in, timeout)
+			}
+		}()
+	}
+	for i := range jobs {
+		ch <- i
+	}
+	close(ch)
+	wg.Wait()
+	return outs
+}
+
+var panicRe = regexp.MustCompile(`(?m)^(panic: .*|fatal error: .*)$`)
+var frameRe = regexp.MustCompile(`(?m)^(github\.com/yandex/mysync/internal/[^\s(]+)\(`)
+var raceRe = regexp.MustCompile(`WARNING: DATA RACE`)
+
+// classifyDeath turns a dead run process into a violation (C20) or harness trouble.
+func classifyDeath(o *outcome) (*violation, string) {
+	st := o.stderr
+	if o.exitCode == 3 {
+		return &violation{Property: "C20", Clause: "nontermination", Signature: "C20/nontermination/goroutine-running-in-internal-app", Detail: "a goroutine kept running inside internal/app for >25s real time without making an external call"}, ""
+	}
+	if m := panicRe.FindString(st); m != "" {
+		// first mysync frame after the panic line
+		idx := strings.Index(st, m)
+		rest := st[idx:]
+		fr := ""
+		for _, f := range frameRe.FindAllStringSubmatch(rest, -1) {
+			if strings.Contains(f[1], "/verifsim") {
+				continue
+			}
+			fr = f[1]
+			break
+		}
+		if fr == "" {
+			return nil, "process died outside mysync code: " + m
+		}
+		fr = strings.TrimPrefix(fr, "github.com/yandex/mysync/internal/")
+		kind := "panic"
+		switch {
+		case strings.Contains(m, "nil pointer"):
+			kind = "nil-deref"
+		case strings.Contains(m, "index out of range"):
+			kind = "index"
+		case strings.Contains(m, "concurrent map"):
+			kind = "concurrent-map"
+		case strings.Contains(m, "impossible to change master to itself"):
+			kind = "change-master-to-self"
+		}
+		return &violation{Property: "C20", Clause: "panic", Signature: "C20/panic/" + fr + ":" + kind, Detail: m}, ""
+	}
+	return nil, fmt.Sprintf("run process exited %d without a result", o.exitCode)
+}
+
+func raceViolation(o *outcome) *violation {
+	if !raceRe.MatchString(o.stderr) {
+		return nil
+	}
+	// signature: the two top mysync frames of the report
+	idx := strings.Index(o.stderr, "WARNING: DATA RACE")
+	rest := o.stderr[idx:]
+	if e := strings.Index(rest, "=================="); e > 0 {
+		rest = rest[:e]
+	}
+	var frs []string
+	for _, l := range strings.Split(rest, "\n") {
+		l = strings.TrimSpace(l)
+		if strings.HasPrefix(l, "github.com/yandex/mysync/internal/") && !strings.Contains(l, "/verifsim") {
+			f := strings.TrimPrefix(l, "github.com/yandex/mysync/internal/")
+			if i := strings.Index(f, "("); i > 0 {
+				f = f[:i]
+			}
+			if len(frs) == 0 || frs[len(frs)-1] != f {
+				frs = append(frs, f)
+			}
+		}
+	}
+	if len(frs) == 0 {
+		return nil // race inside the harness or a dependency: not mysync's shared memory
+	}
+	if len(frs) > 2 {
+		frs = frs[:2]
+	}
+	sort.Strings(frs)
+	return &violation{Property: "C20", Clause: "race", Signature: "C20/race/" + strings.Join(frs, "+"), Detail: "data race reported by the race detector"}
+}
+
+type candidate struct {
+	v    violation
+	o    *outcome
+	spec json.RawMessage
+}
+
+func cmdCheck(id, tier string) int {
+	start := time.Now()
+	cd := checks[id]
+	if cd == nil {
+		fmt.Fprintf(os.Stderr, "unknown property %s\n", id)
+		return 2
+	}
+	if t := os.Getenv("VERIF_TIER"); t != "" && (tier == "") {
+		tier = t
+	}
+	if tier != "quick" && tier != "thorough" {
+		tier = "quick"
+	}
+	seed := uint64(20260925)
+	if tier == "thorough" {
+		seed = 777001
+	}
+	if v, err := strconv.ParseUint(os.Getenv("VERIF_SEED"), 10, 64); err == nil {
+		seed = v
+	}
+	fmt.Printf("VERIF_SEED=%d property=%s tier=%s\n", seed, id, tier)
+	bins := map[bool]string{}
+	var rst *rewriteStats
+	for _, f := range cd.families {
+		if _, ok := bins[f.race]; ok {
+			continue
+		}
+		b, st, err := buildSim(f.race)
+		if err != nil {
+			fmt.Fprintln(os.Stderr, "HARNESS: build/rewrite failed:", err)
+			return 2
+		}
+		bins[f.race] = b
+		if !f.race {
+			rst = st
+		}
+	}
+	budget := 8 * time.Minute
+	if tier == "thorough" {
+		budget = 45 * time.Minute
+	}
+	if v, err := time.ParseDuration(os.Getenv("VERIF_BUDGET")); err == nil {
+		budget = v
+	}
+	deadline := start.Add(budget)
+	// ---- determinism smoke: first indices of the first family twice, different GOMAXPROCS
+	detOK, detN := true, 0
+	{
+		f := cd.families[0]
+		var dj []job
+		for i := 0; i < 4; i++ {
+			dj = append(dj, job{fam: f, index: i, in: simInput{Mode: "gen", Family: f.family, Seed: seed, Index: i, Tier: tier}})
+		}
+		a := runJobs(bins, dj, 5*time.Minute, deadline)
+		b := runJobs(bins, dj, 5*time.Minute, deadline)
+		for i := range dj {
+			if a[i] == nil || b[i] == nil || a[i].res == nil || b[i].res == nil {
+				continue
+			}
+			detN++
+			if a[i].res.TraceHash != b[i].res.TraceHash {
+				detOK = false
+				fmt.Fprintf(os.Stderr, "HARNESS: determinism smoke failed for %s index %d: %s vs %s\n", f.family, i, a[i].res.TraceHash, b[i].res.TraceHash)
+			}
+		}
+		if !detOK {
+			return 2
+		}
+	}
+	// ---- the runs
+	var jobs []job
+	for _, f := range cd.families {
+		n := f.quick
+		if tier == "thorough" {
+			n = f.thor
+		}
+		if v, err := strconv.Atoi(os.Getenv("VERIF_RUNS")); err == nil && v > 0 {
+			n = v
+		}
+		for i := 0; i < n; i++ {
+			jobs = append(jobs, job{fam: f, index: i, in: simInput{Mode: "gen", Family: f.family, Seed: seed, Index: i, Tier: tier}})
+		}
+	}
+	outs := runJobs(bins, jobs, 10*time.Minute, deadline)
+	// ---- aggregate
+	agg := newAgg()
+	var cands []candidate
+	harnessTrouble := []string{}
+	notes := map[string]int{}
+	for i, o := range outs {
+		if o == nil {
+			agg.skipped++
+			continue
+		}
+		agg.add(o)
+		if o.res == nil {
+			v, why := classifyDeath(o)
+			if v == nil {
+				harnessTrouble = append(harnessTrouble, fmt.Sprintf("%s index %d: %s", jobs[i].fam.family, jobs[i].index, why))
+				continue
+			}
+			if v.Property == id {
+				cands = append(cands, candidate{v: *v, o: o})
+			} else {
+				notes[v.Signature]++
+			}
+			continue
+		}
+		if rv := raceViolation(o); rv != nil {
+			if id == "C20" {
+				cands = append(cands, candidate{v: *rv, o: o, spec: o.res.Spec})
+			} else {
+				notes[rv.Signature]++
+			}
+		}
+		for _, v := range o.res.Violations {
+			if v.Property == id {
+				cands = append(cands, candidate{v: v, o: o, spec: o.res.Spec})
+			} else {
+				notes[v.Signature]++
+			}
+		}
+		if len(o.res.Stats.Unknown) > 0 {
+			for q := range o.res.Stats.Unknown {
+				agg.unknown[q]++
+			}
+		}
+	}
+	for sig, n := range notes {
+		fmt.Printf("NOTE: violation of another property's monitor seen %d time(s): %s\n", n, sig)
+	}
+	if len(harnessTrouble) > 0 {
+		for _, h := range harnessTrouble {
+			fmt.Fprintln(os.Stderr, "HARNESS:", h)
+		}
+		// show one stderr for diagnosis
+		for _, o := range outs {
+			if o != nil && o.res == nil {
+				s := o.stderr
+				if len(s) > 4000 {
+					s = s[len(s)-4000:]
+				}
+				fmt.Fprintln(os.Stderr, s)
+				break
+			}
+		}
+		return 2
+	}
+	// ---- confirm, shrink, report
+	known := loadKnown()
+	bySig := map[string][]candidate{}
+	var sigs []string
+	for _, c := range cands {
+		if _, ok := bySig[c.v.Signature]; !ok {
+			sigs = append(sigs, c.v.Signature)
+		}
+		bySig[c.v.Signature] = append(bySig[c.v.Signature], c)
+	}
+	sort.Strings(sigs)
+	exit := 0
+	violations := 0
+	var knownSeen []string
+	for _, sig := range sigs {
+		c := bySig[sig][0]
+		if k := matchKnown(known, sig); k != nil {
+			fmt.Printf("KNOWN-FINDING: property=%s %s (%s; seen in %d run(s))\n", id, k.What, sig, len(bySig[sig]))
+			knownSeen = append(knownSeen, sig)
+			continue
+		}
+		path, ok, why := confirmAndShrink(bins[c.o.in.Family != "" && isRaceJob(c.o, jobs, outs)], id, c, tier)
+		if !ok {
+			fmt.Fprintf(os.Stderr, "HARNESS: violation %s did not replay identically (%s)\n", sig, why)
+			return 2
+		}
+		violations++
+		fmt.Printf("VIOLATION property=%s replay=%s\n", id, path)
+		fmt.Printf("  signature: %s\n  detail: %s\n  seen in %d run(s)\n", sig, c.v.Detail, len(bySig[sig]))
+		exit = 1
+	}
+	// ---- evidence
+	wall := time.Since(start).Seconds()
+	ev := agg.evidence(cd, id, tier, seed, wall, violations, knownSeen, rst, detN)
+	os.MkdirAll(filepath.Join(verifDir, "evidence"), 0o755)
+	eb, _ := json.MarshalIndent(ev, "", " ")
+	if err := os.WriteFile(filepath.Join(verifDir, "evidence", id+".json"), eb, 0o644); err != nil {
+		fmt.Fprintln(os.Stderr, "HARNESS: cannot write evidence:", err)
+		return 2
+	}
+	fmt.Printf("runs=%d nontrivial_distinct=%d sim_seconds=%.0f wall=%.1fs violations=%d known=%d\n", agg.runs, len(agg.distinct), agg.simSeconds, wall, violations, len(knownSeen))
+	if exit == 0 {
+		// a required probe that never fired is a defect of the scenario generator, not success
+		if miss := agg.missingProbes(id); len(miss) > 0 && os.Getenv("VERIF_RUNS") == "" {
+			fmt.Fprintf(os.Stderr, "HARNESS: required probes never fired: %v\n", miss)
+			return 2
+		}
+	}
+	return exit
+}
+
+func isRaceJob(o *outcome, jobs []job, outs []*outcome) bool {
+	for i := range outs {
+		if outs[i] == o {
+			return jobs[i].fam.race
+		}
+	}
+	return false
+}
+
+func cmdReplay(file string, verbose bool) int {
+	b, err := os.ReadFile(file)
+	if err != nil {
+		fmt.Fprintln(os.Stderr, err)
+		return 2
+	}
+	var rf replayFile
+	if err := json.Unmarshal(b, &rf); err != nil {
+		fmt.Fprintln(os.Stderr, err)
+		return 2
+	}
+	bin, _, err := buildSim(rf.Race)
+	if err != nil {
+		fmt.Fprintln(os.Stderr, "HARNESS: build failed:", err)
+		return 2
+	}
+	o := runOne(bin, simInput{Mode: "replay", Spec: rf.Spec, Verbose: verbose}, 20*time.Minute)
+	printOutcome(o)
+	if o.res == nil {
+		if v, _ := classifyDeath(o); v != nil && v.Signature == rf.Signature {
+			fmt.Printf("VIOLATION property=%s replay=%s\n", rf.Property, file)
+			return 1
+		}
+		return 2
+	}
+	if rv := raceViolation(o); rv != nil && rv.Signature == rf.Signature {
+		fmt.Printf("VIOLATION property=%s replay=%s\n", rf.Property, file)
+		return 1
+	}
+	for _, v := range o.res.Violations {
+		if v.Signature == rf.Signature {
+			fmt.Printf("VIOLATION property=%s replay=%s\n", rf.Property, file)
+			return 1
+		}
+	}
+	fmt.Println("replay did not reproduce the recorded violation on this tree")
+	return 0
+}
+
+func cmdSelftest(n int) int {
+	bin, st, err := buildSim(false)
+	if err != nil {
+		fmt.Fprintln(os.Stderr, "HARNESS: build failed:", err)
+		return 2
+	}
+	fmt.Printf("rewrite: %+v\n", *st)
+	fams := []string{"smoke", "singlefault", "switch", "lifecycle", "gates", "membership", "crashpoints", "lost", "maintenance", "repair", "recovery", "cascade", "offline", "disk", "optimization", "chaos", "lock", "dataplane"}
+	if f := os.Getenv("VERIF_FAMILIES"); f != "" {
+		fams = strings.Split(f, ",")
+	}
+	bins := map[bool]string{false: bin}
+	bad := 0
+	total := 0
+	unknown := map[string]int{}
+	for _, fam := range fams {
+		var jobs []job
+		for i := 0; i < n; i++ {
+			jobs = append(jobs, job{fam: familyPlan{family: fam}, index: i, in: simInput{Mode: "gen", Family: fam, Seed: 4242, Index: i, Tier: "quick"}})
+		}
+		var hs [3][]*outcome
+		for k := 0; k < 3; k++ {
+			// same runtime configuration (GOMAXPROCS=1, async preemption off), different machine load
+			os.Setenv("VERIF_WORKERS", []string{"3", "12", "24"}[k])
+			hs[k] = runJobs(bins, jobs, 10*time.Minute, time.Now().Add(time.Hour))
+		}
+		os.Unsetenv("VERIF_WORKERS")
+		fb := 0
+		for i := range jobs {
+			total++
+			var h []string
+			for k := 0; k < 3; k++ {
+				if hs[k][i] == nil || hs[k][i].res == nil {
+					h = append(h, fmt.Sprintf("dead(%d)", hs[k][i].exitCode))
+				} else {
+					h = append(h, hs[k][i].res.TraceHash)
+					for q := range hs[k][i].res.Stats.Unknown {
+						unknown[q]++
+					}
+				}
+			}
+			if h[0] != h[1] || h[1] != h[2] {
+				fb++
+				if fb <= 3 {
+					fmt.Printf("NONDETERMINISTIC: family=%s index=%d hashes=%v\n", fam, i, h)
+				}
+			}
+		}
+		fmt.Printf("family %-12s %d seeds x 3 processes (3/12/24 concurrent runs): %d mismatches\n", fam, n, fb)
+		bad += fb
+	}
+	if len(unknown) > 0 {
+		fmt.Printf("UNKNOWN STATEMENTS: %v\n", unknown)
+		bad++
+	}
+	if bad > 0 {
+		return 2
+	}
+	fmt.Printf("determinism self-test passed: %d seeds\n", total)
+	return 0
+}
